@@ -49,8 +49,49 @@ def run(f, ess_ratio, n, seed, vectorize=False):
     return None
 
 
+def run_sparse(f, n, d, seed, ess_ratio):
+    """very sparse support (a prior batch holds about n_dim finite draws): the likelihood is wrapped and counts, in call order, which
+    evaluations were finite; the `calls` history partitions them into iterations.  The evidence recorded by a prior-sampling iteration
+    is log(#finite / #evaluated) of the prior points drawn in that iteration - counted once"""
+    seen = []
+
+    def ll(x):
+        fin = x[0] < f
+        seen.append(bool(fin))
+        return -0.5 * float(np.sum((x[1:] - 0.5) ** 2)) / 0.2 ** 2 if fin else -np.inf
+    s = Sampler(lambda u: u, ll, n_dim=d, n_particles=n, ess_ratio=ess_ratio, random_state=seed, clustering=False)
+    try:
+        s.run(n_total=2 * n, progress=False)
+    except np.linalg.LinAlgError:
+        return None
+    beta, logz, calls = (np.asarray(s.state.get_history(k)) for k in ("beta", "logz", "calls"))
+    for t in range(len(beta)):
+        if np.any(np.isinf(s.state.get_history("logl", index=t))):
+            return f"-inf particle stored in batch {t}"
+    prev = 0
+    for t in range(len(beta)):
+        c = int(calls[t])
+        if beta[t] == 0.0 and c > prev:
+            win = seen[prev:c]
+            fin = sum(win)
+            if 0 < fin and abs(logz[t] - np.log(fin / len(win))) > 1e-9:
+                return (f"warm-up iteration {t}: {len(win)} prior points were evaluated, {fin} had a finite likelihood, recorded logz {logz[t]:.6f} "
+                        f"but log(finite / evaluated) = {np.log(fin / len(win)):.6f}")
+        prev = c
+    return None
+
+
 def main():
     tried = 0
+    for f, n, d, seed, er in ((0.05, 128, 5, 0, 2.0), (0.05, 128, 5, 1, 1.0), (0.04, 96, 4, 2, 2.0), (0.3, 24, 5, 3, 2.0), (0.05, 128, 5, 4, 2.0), (0.05, 128, 5, 5, 2.0)):
+        tried += 1
+        try:
+            r = run_sparse(f, n, d, seed, er)
+        except Exception as e:
+            r = f"{type(e).__name__}: {e}"
+        if r:
+            print(json.dumps({"reproduced": True, "detail": r, "input": {"f": f, "ess_ratio": er, "n_particles": n, "n_dim": d, "seed": seed, "clustering": False}, "tried": tried}))
+            return
     for f, er, n, seed, vec in itertools.product((0.5, 0.25, 0.9), (0.5, 2.0, 4.0), (200,), (0, 1), (False, True)):
         tried += 1
         try:
